@@ -322,7 +322,7 @@ def oracle_fp16_led(ctx, deep=False):
         _impl_led([(255, 255, 255)] * 12, 10)       # same colour first written dimmed, then at full intensity
         if _impl_led([(255, 255, 255)] * 12, 100) != [0xFFFF] * 12:
             fails.append({'class': 'led_white_not_full', 'case': {'fn': 'led', 'colors': [255, 255, 255], 'intensity': 100}})
-        for i in ([100, 1, 37, 50, 99] if not deep else range(1, 101)):
+        for i in ([100, 0, 1, 37, 50, 99] if not deep else range(0, 101)):
             prev = None
             for c0 in range(0, 256, 4):
                 cols = []
